@@ -105,7 +105,7 @@ P["C14"] = ("proof", "Specifier part: 13 laws + complement as `==` of the return
             TB_PROOF + "; " + TB_MARKER, "machine-checked proof in Coq (specifiers over the regenerated model; markers over a hand model) + correspondence", "5")
 P["C11"] = ("proof", "C11_view: for EVERY comparison / ~= / wildcard atom on a version variable (any operand shape: release length, epoch, pre/post/dev suffix) `value in marker.specifier` equals the atom's evaluation on every final interpreter version; "
             "C11_back: from_specifier(name, s) returns AnyMarker / EmptyMarker only for the universal / empty set and otherwise None or an atom that evaluates true exactly on the final versions s admits, for every canonical s with genuine remembered clauses; "
-            "C11_padding: zero padding the release segment (python_full_version) changes no comparison; C11_merge: _merge_single_markers on two atoms of one version-like variable returns something that evaluates as their conjunction / disjunction "
+            "C11_padding: zero padding the release segment (python_full_version) changes no comparison; C11_reversed: literal-on-the-left atoms with a final literal evaluate like the mirrored atom; C11_merge: _merge_single_markers on two atoms of one version-like variable returns something that evaluates as their conjunction / disjunction "
             "(discharging the marker theorems' merge hypothesis for same-variable merges); C11_normalize / C11_merge_pv: the same for the python_version / python_full_version pair on every consistent interpreter (python_version = X.Y, "
             "python_full_version = X.Y.Z), for python_version operands with at most two meaningful segments (the rest is the recorded finding pv-long-operand). Atom evaluation = packaging's Specifier.contains = clause_sem (model; compared with evaluate() and packaging by S-bridge / S-parse). "
             "Outside the theorems: `in`/`not in` lists (string containment: known finding pv-in-substring) - direct oracle only.",
